@@ -11,10 +11,25 @@ lists the notification names the harness compares; they must be names the entry 
   (both <run line or (skip)> (follow ...))  → (both <its output> <output of M-Follow, Drivers/Follow.lean>)
     the same operation seen by both models: the object's own notifications, and the components of the layer
     that re-post it as `Component.BaseGlyphDataChanged`
+
+  (multi <line> ...) → (multi <output> ...)   the same operation seen by several models; besides the above:
+
+  (order <op of M-GlyphOrder> <lib> ((<layer> (<glyph> ...)) ...))
+    → (((<old> <new> <lib at delivery>) ...) <lib>)      M-OrderNotify: the deliveries of Font.GlyphOrderChanged
+  (winding reverse (<point> ...)) | (winding (set <bool>) (<point> ...))
+    → (<clockwise before> <area is zero> <clockwise after> (<point after> ...))   M-Geom, as `Spec/SettersWinding.lean`
+      reads it; `(undrawable)` when the points are not a contour the reversal laws speak about
+  (getter-table) → the getter table of `NotifGetters.lean` and the Will/Did pairs, as the harness must have them
 -/
 import DefconModel.Util.SExp
 import DefconModel.SettersCatalogue
+import DefconModel.NotifGetters
+import DefconModel.Spec.SettersWinding
+import DefconModel.Spec.Geom
+import DefconModel.OrderNotify
 import DefconModel.Drivers.Follow
+import DefconModel.Drivers.GlyphOrder
+import DefconModel.Drivers.Geom
 
 namespace DefconModel
 namespace Setters
@@ -78,10 +93,55 @@ def driverRun (u : Unit) (line : SExp) : Unit × SExp :=
   | .list [.atom "skip"] => (u, .list [.atom "skip"])
   | _ => (u, .atom "bad-op")
 
+def encOptNames (v : Option (List String)) : SExp := ofOpt (ofList .str) v
+
+def orderLine : SExp → SExp
+  | .list [.atom "order", op, lib, .list ls] =>
+    match GlyphOrder.parseOp op, GlyphOrder.optStrList? lib, ls.mapM GlyphOrder.parseLayer with
+    | some op, some v, some layers =>
+      let r := OrderNotify.stepN { layers := layers, lib := v } op
+      .list [.list (r.2.map (fun ev => .list [encOptNames ev.old, encOptNames ev.new, encOptNames ev.snap])),
+             encOptNames r.1.1.lib]
+    | _, _, _ => .atom "bad-op"
+  | _ => .atom "bad-op"
+
+def windingLine : SExp → SExp
+  | .list [.atom "winding", op, pts] =>
+    match asListOf? Geom.asPoint? pts with
+    | some ps =>
+      if decide (Geom.ReversibleShape ps) && decide (Geom.drawErr ps = none) then
+        let rev := Geom.reversePoints ps
+        let out (after : List Geom.Point) : SExp :=
+          .list [ofBool (clockwiseOf ps), ofBool (zeroArea ps), ofBool (clockwiseOf after), .list (after.map Geom.ofPoint)]
+        match op with
+        | .atom "reverse" => out rev
+        | .list [.atom "set", v] =>
+          match asBool? v with
+          | some v => if clockwiseOf ps = v then out ps else out rev
+          | none => .atom "bad-op"
+        | _ => .atom "bad-op"
+      else .list [.atom "undrawable"]
+    | none => .atom "bad-op"
+  | _ => .atom "bad-op"
+
+def getterTable : SExp :=
+  .list [tagged "getters" (getters.map (fun g =>
+           .list [.str g.note, .str g.oldKey, .str g.newKey, ofOpt .str g.item, .str g.attr])),
+         tagged "wills" (willSubject.map (fun w => .list [.str w.1, ofOpt .str (didOf w.1), ofOpt .str w.2]))]
+
+def driverOne (u : Unit) (line : SExp) : SExp :=
+  match line with
+  | .list (.atom "follow" :: _) => Follow.driverLine line
+  | .list (.atom "order" :: _) => orderLine line
+  | .list (.atom "winding" :: _) => windingLine line
+  | .list [.atom "getter-table"] => getterTable
+  | l => (driverRun u l).2
+
 def driverStep (u : Unit) (line : SExp) : Unit × SExp :=
   match line with
   | .list [.atom "both", l, f] => (u, .list [.atom "both", (driverRun u l).2, Follow.driverLine f])
-  | l => driverRun u l
+  | .list (.atom "multi" :: ls) => (u, .list (.atom "multi" :: ls.map (driverOne u)))
+  | l => (u, driverOne u l)
 
 end Setters
 end DefconModel
